@@ -1,12 +1,12 @@
 #!/bin/bash
-# Re-applies every stored seeded change to /repo in turn and runs the quick tier of the check it was made for.
+# Re-applies every stored seeded change to /repo in turn and runs the quick tier of the check recorded as detecting it (normally the check of the property it breaks).
 # usage: regress_seeded.sh [name-glob]      Output: one line per change; exit 1 if any is not caught.
 set -u
 cd /verif
 fail=0
 for d in seeded/${1:-*}/; do
   n=$(basename $d)
-  prop=$(python3 -c "import json;print(json.load(open('$d/meta.json'))['breaks_property'])")
+  prop=$(python3 -c "import json;m=json.load(open('$d/meta.json'));print(m.get('detection',{}).get('check') or m['breaks_property'])")
   line=$(./scripts/run_seeded.sh $d quick $prop 2>&1 | tail -1)
   echo "$line"
   echo "$line" | grep -q "caught=yes" || fail=1
